@@ -198,8 +198,43 @@ def k_c08(ctx):
             ctx.violation("a rate for %s %d-%02d does not exist but the run %s" % (want + (("succeeds",) if x.get("ok") else ("fails with: " + x.get("error", "")[:120],))),
                           {"input_dsl": ledger.render(ls), "code": x}, found_input=True)
     ctx.count("missing_rate_cases", len(miss))
+    # ---------- (2b) the CLI front-end itself: foreign amounts in any field, without a rates folder ----------
+    cli_conversions(ctx, table)
     # ---------- (3) rate folders through the CLI ----------
     folders(ctx, table, months)
+
+def cli_conversions(ctx, table):
+    """`cgt-tool report` (bundled rates, no folder) on ledgers whose foreign amounts sit in any one field only - a price, a total,
+    a fee, a tax - or in several: it must succeed wherever the library converts, and show the same holdings cost."""
+    rng = ctx.rng
+    root = os.path.join(build.CACHE, "run", "c08cli-%d" % os.getpid()); shutil.rmtree(root, ignore_errors=True); os.makedirs(root)
+    try:
+        cases = {}
+        for i in range(ctx.n(40, 500)):
+            y, m = rng.choice(sorted({(yy, mm) for (c, yy, mm) in table if c == "USD" and yy >= 2016}))
+            d = datetime.date(y, m, 5); cur = rng.choice(["USD", "EUR", "JPY"])
+            where = rng.choice(["fees_only", "fees_only", "tax_only", "price_only", "total_only", "all"])
+            f = lambda on: cur if (where == "all" or where == on) else "GBP"
+            ls = [Line(d, "AAA", "BUY", "100", "2", f("price_only"), "4.95", f("fees_only")),
+                  Line(d + datetime.timedelta(days=2), "AAA", "DIVIDEND", None, "10", f("total_only"), "1.5", f("tax_only")),
+                  Line(d + datetime.timedelta(days=3), "AAA", "SELL", "40", "3", f("price_only"), "2", f("fees_only"))]
+            if rng.random() < 0.5: ls.append(Line(d + datetime.timedelta(days=4), "AAA", "CAPRETURN", "60", "5", f("total_only"), "0.5", f("fees_only")))
+            cases["c%d" % i] = (ls, where)
+        lib = run.run_harness([{"id": cid, "op": "report", "dsl": ledger.render(ls)} for cid, (ls, _) in cases.items()])
+        for cid, (ls, where) in cases.items():
+            wd = os.path.join(root, cid); os.makedirs(wd); open(os.path.join(wd, "in.cgt"), "w").write(ledger.render(ls))
+            p = cli_report_json(wd, ["in.cgt"], []); x = lib[cid]
+            ctx.evaluations += 1; ctx.count("cli_foreign_field", where); ctx.count("cli_foreign_exit", p.returncode)
+            replay = {"input_dsl": ledger.render(ls), "foreign_field": where, "cli_exit": p.returncode, "stderr": p.stderr[-300:], "library": x}
+            if x.get("ok") and p.returncode != 0:
+                ctx.violation("the library converts this ledger but `cgt-tool report` fails: %s" % p.stderr.strip().splitlines()[0][:160], replay, found_input=True); continue
+            if not x.get("ok") or p.returncode != 0: continue
+            hold = {h["ticker"]: F(h["total_cost"]) for h in json.loads(p.stdout)["holdings"]}
+            for h in x["report"]["holdings"]:
+                if abs(hold.get(h["tick"], F(-1)) - F(h["cost"])) > F(1, 100):
+                    ctx.violation("`cgt-tool report` shows cost %s for %s, the library computes %s" % (float(hold.get(h["tick"], -1)), h["tick"], float(F(h["cost"]))), replay, found_input=True); break
+    finally:
+        shutil.rmtree(root, ignore_errors=True)
 
 def cli_report_json(workdir, files, extra):
     env = dict(build.ENV, HOME=workdir)
